@@ -7,3 +7,4 @@ pub mod chan;
 pub mod mem;
 pub mod dynf;
 pub mod cache;
+pub mod spawny;
